@@ -20,4 +20,19 @@ Definition run_lower (cmd : string) (arg : sexp) : sexp :=
       end
     | _ => bad "lower_rearrange: expected (din dout graph)"
     end
+  else if String.eqb cmd "lower_elementwise" then
+    match arg with
+    | L [fn; dins; dout; g] =>
+      match dS fn, dec_dimss dins, dec_dims dout, dTm 500 g with
+      | Some fn, Some dins, Some dout, Some g =>
+        match singles dins, single dout with
+        | Some pins, Some pout =>
+          let m := lower_elementwise fn pins pout in
+          L [A "lower"; sB (elementwise_ok pins pout); sB (equiv m g); sB (wf_tm m); sB (wf_tm g); sNat (tsize (norm m)); sNat (tsize (norm g))]
+        | _, _ => A "not_single"
+        end
+      | _, _, _, _ => bad "lower_elementwise: cannot decode"
+      end
+    | _ => bad "lower_elementwise: expected (name dins dout graph)"
+    end
   else bad "lower: unknown command".
